@@ -2,7 +2,7 @@
 from typing import List, Optional
 import types
 
-from harness.common import hit, make_record, run, Status
+from harness.common import hit, make_record, run, Status, nosym
 import wpull.urlfilter as F
 from wpull.url import URLInfo, is_subdir, schemes_similar
 from wpull.processor.rule import FetchRule
@@ -172,4 +172,374 @@ HARNESSES = [
       samples=[(False,) * 9 + (0, 0, 0) + (False,) * 6, (True,) * 9 + (3, 2, 5) + (True,) * 6],
       funcs=['wpull/application/tasks/rule.py:URLFiltersSetupTask._build_url_filters'],
       doc='every scope option installs exactly its filter class, wired to the option values'),
+]
+
+
+# ---------------------------------------------------------------- H5 filters are consulted before every request (HTTP)
+from harness import stubs  # noqa: E402
+from wpull.pipeline.session import ItemSession  # noqa: E402
+
+_HOP_URLS = ['http://example.com/start', 'http://example.com/hop1', 'http://other.example/hop2', 'http://example.com/hop3',
+             'http://example.com/hop4']
+
+
+def _consulted_http(v0, v1, v2, v3, v4, a0, a1, a2, a3):
+    """v_k: the scope verdict at the k-th consultation; a_k: what the server answers to the k-th request
+    (0 = 200 final, 1 = 301 redirect to the next hop URL, 2 = 307 redirect, 3 = network error, 4 = 404)."""
+    events = []
+    answers = [a0, a1, a2, a3]
+    verdicts = [v0, v1, v2, v3, v4]
+
+    def answer(k, request):
+        a = answers[k] if k < 4 else 0
+        if a == 1:
+            return (301, _HOP_URLS[k + 1])
+        if a == 2:
+            return (307, _HOP_URLS[k + 1])
+        if a == 3:
+            return 'neterr'
+        if a == 4:
+            return (404, None)
+        return (200, None)
+    client = stubs.StubHTTPClient(answer=answer)
+    client.events = events
+    with nosym():
+        env = stubs.build_web(client, filters=[F.SchemeFilter(), stubs.ScriptFilter(verdicts, events)])
+        env.table.add(_HOP_URLS[0])
+        rec = env.table.check_out(Status.todo)
+        item = ItemSession(env.app, rec)
+    run(env.proc.process(item))
+    # oracle: walk the event log
+    last_filter = None
+    rejected = False
+    starts = 0
+    for ev in events:
+        if ev[0] == 'filter':
+            last_filter = ev
+            if not ev[2]:
+                rejected = True
+        elif ev[0] == 'start':
+            starts += 1
+            if rejected:
+                return False                    # a request after a negative verdict
+            if last_filter is None or last_filter[1] != ev[1] or not last_filter[2]:
+                return False                    # request not preceded by a positive verdict on exactly that URL
+            last_filter = None                  # a verdict is good for one request only
+    if starts > 1:
+        hit('multi-hop')
+    if rejected:
+        hit('rejected')
+        if env.table.rows[_HOP_URLS[0]].status != Status.skipped:
+            return False
+    return item.is_processed
+
+
+HARNESSES.append(
+    H('consulted_http', '_consulted_http',
+      'v0: bool, v1: bool, v2: bool, v3: bool, v4: bool, a0: int, a1: int, a2: int, a3: int',
+      pre=['0 <= a0 <= 4 and 0 <= a1 <= 4 and 0 <= a2 <= 4 and 0 <= a3 <= 4'],
+      timeout={'quick': 150, 'thorough': 600},
+      samples=[(True, True, True, True, True, 1, 2, 0, 0), (True, True, False, True, True, 1, 1, 1, 0), (False, True, True, True, True, 0, 0, 0, 0)],
+      need=['multi-hop', 'rejected'],
+      funcs=['wpull/processor/web.py:WebProcessorSession.process', 'wpull/processor/web.py:WebProcessorSession._process_loop',
+             'wpull/processor/web.py:WebProcessorSession._process_robots', 'wpull/processor/rule.py:FetchRule.check_subsequent_web_request',
+             'wpull/processor/rule.py:FetchRule.check_initial_web_request', 'wpull/protocol/http/web.py:WebSession.start'],
+      doc='in WebProcessorSession.process every request (first and every redirect hop, <=4 hops) is immediately preceded by a positive '
+          'scope verdict on exactly that URL; nothing is requested after a negative verdict and the item ends skipped'))
+
+
+# ---------------------------------------------------------------- H2 every filter class vs. an independent reference (pools) + conjunction
+_URLS = ['http://example.com/', 'http://example.com/d/f.html', 'http://example.com/d/', 'http://example.com/dx/f.zip',
+         'https://example.com/d/sub/g.ZIP', 'http://sub.example.com/d/f.html', 'http://example.com:8080/d/f.html',
+         'ftp://example.com/d/f.html', 'http://other.invalid/d/f.html', 'http://192.0.2.7/d', 'https://example.com/e/f.html',
+         'mailto:user@example.com']
+_UIS = [URLInfo.parse(u) for u in _URLS]
+_PARENTS = [None, 'http://example.com/d/index.html', 'https://other.invalid/p.html', 'ftp://example.com/d/']
+_ROOTS = [None, 'http://example.com/d/index.html', 'https://example.com/d/', 'http://example.com/d', 'http://example.com:8080/']
+
+
+class _LazyRecord:
+    """Link record whose pool-drawn fields are only realised when a filter reads them."""
+    def __init__(self, url, pi, ri, inline, level, tries):
+        self.url = url
+        self._pi, self._ri = pi, ri
+        self.inline_level = inline
+        self.level = level
+        self.try_count = tries
+
+    @property
+    def parent_url(self):
+        return _PARENTS[self._pi]
+
+    @property
+    def root_url(self):
+        return _ROOTS[self._ri]
+
+    @property
+    def parent_url_info(self):
+        return URLInfo.parse(self.parent_url)
+
+
+def _segs_dir(path):
+    return path.split('/')[:-1]          # directory part: all segments before the last '/'
+
+
+def _ref_subdir_dir(base, test):
+    b, t = _segs_dir(base), _segs_dir(test)
+    return t[:len(b)] == b
+
+
+_DOMAIN_ACC = [None, ['example.com'], ['sub.example.com', 'invalid']]
+_DOMAIN_REJ = [None, ['sub.example.com'], ['com']]
+_HOST_ACC = [None, ['example.com'], ['sub.example.com', '192.0.2.7']]
+_HOST_REJ = [None, ['example.com'], ['other.invalid']]
+_DIR_ACC = [None, ['/d'], ['/d/sub', '/e/']]
+_DIR_REJ = [None, ['/d'], ['/d*']]
+_FN_ACC = [None, ['*.html'], ['f.*', '*.ZIP']]
+_FN_REJ = [None, ['*.zip'], ['f*']]
+_SPAN_HOSTS = [(), ('example.com',), ('example.com', 'other.invalid')]
+
+
+def _host_suffix_match(lst, host):
+    return any(host[len(host) - len(d):] == d and len(host) >= len(d) for d in lst)
+
+
+def _glob_match(pat, s):
+    """Reference for shell-style '*' patterns (case-sensitive)."""
+    if pat == '':
+        return s == ''
+    if pat[0] == '*':
+        return any(_glob_match(pat[1:], s[k:]) for k in range(len(s) + 1))
+    return s != '' and s[0] == pat[0] and _glob_match(pat[1:], s[1:])
+
+
+def _path_under(dirname, path, wild):
+    d = dirname if dirname.endswith('/') else dirname + '/'
+    p = path if path.endswith('/') else path + '/'
+    if wild:
+        return _glob_match(d, p)
+    return p[:len(d)] == d
+
+
+def _filter_vs_reference(which, ui, pi, ri, inline, a, b, flag1, flag2, flag3):
+    info = _UIS[ui]
+    rec = _LazyRecord(_URLS[ui], pi, ri, inline, 1, 0)
+    is_inline = inline is not None and inline != 0
+    host = info.hostname
+    if which == 0:
+        got = F.SchemeFilter().test(info, rec)
+        want = info.scheme in ('http', 'https', 'ftp')
+    elif which == 1:
+        got = F.HTTPSOnlyFilter().test(info, rec)
+        want = info.scheme == 'https'
+    elif which == 2:
+        got = F.FollowFTPFilter(follow=flag1).test(info, rec)
+        parent = _PARENTS[pi]
+        from_web = parent is not None and parent.split(':')[0] in ('http', 'https')
+        want = not (info.scheme == 'ftp' and from_web and not flag1)
+    elif which == 3:
+        acc, rej = _DOMAIN_ACC[a], _DOMAIN_REJ[b]
+        got = F.BackwardDomainFilter(acc, rej).test(info, rec)
+        want = not (acc and not (host and _host_suffix_match(acc, host))) and not (rej and host and _host_suffix_match(rej, host))
+    elif which == 4:
+        acc, rej = _HOST_ACC[a], _HOST_REJ[b]
+        got = F.HostnameFilter(acc, rej).test(info, rec)
+        want = not (acc and host not in acc) and not (rej and host in rej)
+    elif which == 5:
+        got = F.ParentFilter().test(info, rec)
+        root = _ROOTS[ri]
+        if is_inline:
+            want = True
+        else:
+            top = URLInfo.parse(root) if root else info
+            web = ('http', 'https')
+            similar = info.scheme == top.scheme or (info.scheme in web and top.scheme in web)
+            same_site = similar and info.hostname == top.hostname and (info.scheme != top.scheme or info.port == top.port)
+            want = _ref_subdir_dir(top.path, info.path) if same_site else True
+    elif which == 6:
+        hosts = _SPAN_HOSTS[a]
+        got = F.SpanHostsFilter(hosts, enabled=flag1, page_requisites=flag2, linked_pages=flag3).test(info, rec)
+        parent = _PARENTS[pi]
+        if flag3 and parent is None and not flag1 and host not in hosts and not (flag2 and is_inline):
+            return True     # linked-pages policy with a parentless record: outside the claim (start URLs are always in the host list)
+        want = (flag1 or host in hosts or (flag2 and is_inline)
+                or (flag3 and parent is not None and URLInfo.parse(parent).hostname in hosts))
+    elif which == 7:
+        acc, rej = _DIR_ACC[a], _DIR_REJ[b]
+        got = F.DirectoryFilter(acc, rej).test(info, rec)
+        want = not (acc and not any(_path_under(d, info.path, True) for d in acc)) and \
+            not (rej and any(_path_under(d, info.path, True) for d in rej))
+    elif which == 8:
+        acc, rej = _FN_ACC[a], _FN_REJ[b]
+        got = F.BackwardFilenameFilter(acc, rej).test(info, rec)
+        name = info.path.split('/')[-1]
+        if name == '':
+            want = True
+        else:
+            want = not (acc and not any(_glob_match(p, name) for p in acc)) and not (rej and any(_glob_match(p, name) for p in rej))
+    else:
+        acc = [None, '/d/', r'\.html$'][a]
+        rej = [None, 'sub', '^https'][b]
+        got = F.RegexFilter(acc, rej).test(info, rec)
+        import re
+        want = not (acc and not re.search(acc, _URLS[ui])) and not (rej and re.search(rej, _URLS[ui]))
+    if want:
+        hit('pass')
+    else:
+        hit('fail')
+    return bool(got) == bool(want)
+
+
+def _conjunction(n, p1, p2, p3, p4, p5):
+    oks = [p1, p2, p3, p4, p5][:n]
+    filters = [cls(ok) for cls, ok in zip((_StubA, _StubB, _StubC, _StubD), oks)]
+    if n == 5:
+        filters.append(F.SchemeFilter() if p5 else F.HTTPSOnlyFilter())     # real classes as the last member (URL is http)
+    info = F.DemuxURLFilter(filters).test_info(_UI, make_record(_UI.url))
+    want = all(oks)
+    if info['verdict'] != want:
+        return False
+    if len(info['passed']) != oks.count(True) or len(info['failed']) != oks.count(False):
+        return False
+    for f, ok in zip(filters, oks):
+        if (f in info['passed']) != ok or (f in info['failed']) == ok or bool(info['map'][type(f).__name__]) != ok:
+            return False
+    hit('accept' if want else 'reject')
+    return F.DemuxURLFilter(filters).test(_UI, make_record(_UI.url)) == want
+
+
+# ---------------------------------------------------------------- H6 string kernels with symbolic text
+def _is_subdir_kernel(base, test, mode):
+    if mode == 0:
+        got = is_subdir(base, test, trailing_slash=True)
+        want = _ref_subdir_dir(base, test)
+    else:
+        got = is_subdir(base, test)
+        b = (base[:-1] if base.endswith('/') else base).split('/')
+        t = (test[:-1] if test.endswith('/') else test).split('/')
+        want = t[:len(b)] == b
+    hit('under' if want else 'outside')
+    return bool(got) == want
+
+
+def _schemes_similar_kernel(i, j):
+    pool = ['http', 'https', 'ftp', 'HTTP', '', 'file']
+    a, b = pool[i], pool[j]
+    want = a == b or (a in ('http', 'https') and b in ('http', 'https'))
+    return bool(schemes_similar(a, b)) == want
+
+
+_FILTER_NAMES = ['Scheme', 'HTTPSOnly', 'FollowFTP', 'BackwardDomain', 'Hostname', 'Parent', 'SpanHosts', 'Directory',
+                 'BackwardFilename', 'Regex']
+HARNESSES += [
+    H('filter_vs_reference', '_filter_vs_reference',
+      'which: int, ui: int, pi: int, ri: int, inline: Optional[int], a: int, b: int, flag1: bool, flag2: bool, flag3: bool',
+      pre=['0 <= ui < %d and 0 <= pi < %d and 0 <= ri < %d and 0 <= a <= 2 and 0 <= b <= 2' % (len(_URLS), len(_PARENTS), len(_ROOTS)),
+           'inline is None or 0 <= inline <= 1'],
+      parts=[{'tag': n, 'fix': {'which': str(i)}} for i, n in enumerate(_FILTER_NAMES)],
+      timeout={'quick': 150, 'thorough': 600},
+      samples=[(i, 1, 1, 1, None, 1, 1, False, True, False) for i in range(10)],
+      need=['pass', 'fail'],
+      funcs=['wpull/urlfilter.py:%sFilter.test' % n for n in _FILTER_NAMES] + ['wpull/url.py:is_subdir', 'wpull/url.py:schemes_similar'],
+      doc='each scope filter class agrees with an independent reference predicate for every (URL, parent, root, parameter) combination '
+          'of the pools (12 URLs x 4 parents x 5 roots x 3x3 parameter lists x flags); pool indices are symbolic and enumerated by the solver'),
+    H('conjunction', '_conjunction', 'n: int, p1: bool, p2: bool, p3: bool, p4: bool, p5: bool',
+      pre=['0 <= n <= 5'], timeout={'quick': 90, 'thorough': 300},
+      samples=[(3, True, False, True, True, True), (5, True, True, True, True, True)], need=['accept', 'reject'],
+      funcs=['wpull/urlfilter.py:DemuxURLFilter.test_info', 'wpull/urlfilter.py:DemuxURLFilter.test'],
+      doc='DemuxURLFilter verdict == no installed filter failed, passed/failed/map agree, for every subset of <=5 filters'),
+    H('is_subdir_kernel', '_is_subdir_kernel', 'base: str, test: str, mode: int',
+      pre={'quick': ['len(base) <= 3 and len(test) <= 4 and 0 <= mode <= 1'],
+           'thorough': ['len(base) <= 4 and len(test) <= 5 and 0 <= mode <= 1']},
+      parts=[{'tag': 'trailing_slash', 'fix': {'mode': '0'}, 'pre': ["base[:1] == '/' and test[:1] == '/'"]},
+             {'tag': 'plain', 'fix': {'mode': '1'}}],
+      timeout={'quick': 150, 'thorough': 900},
+      samples=[('/a/', '/a/b', 0), ('/a/b', '/ab/c', 0), ('/a', '/ab', 1), ('a/', 'a', 1)], need=['under', 'outside'],
+      funcs=['wpull/url.py:is_subdir'],
+      doc='is_subdir (no-parent mode and plain mode) equals segment-wise prefix on free symbolic strings'),
+    H('schemes_similar_kernel', '_schemes_similar_kernel', 'i: int, j: int', pre=['0 <= i <= 5 and 0 <= j <= 5'],
+      timeout={'quick': 60, 'thorough': 60}, samples=[(0, 1), (0, 2)], funcs=['wpull/url.py:schemes_similar'],
+      doc='schemes_similar relates exactly equal schemes and http/https'),
+]
+
+
+# ---------------------------------------------------------------- H7 filters are consulted before every FTP request
+from wpull.pipeline.item import LinkType  # noqa: E402
+from wpull.protocol.ftp.ls.listing import FileEntry  # noqa: E402
+
+_FTP_URLS = ['ftp://example.com/dir/file', 'ftp://example.com/dir/sub/', 'ftp://example.com/dir/*.txt']
+
+
+def _ftp_events(verdict, ui, lt, glob, reject_dir):
+    url = _FTP_URLS[ui]
+    events = []
+    with nosym():
+        client = stubs.StubFTPClient(files=[FileEntry('file', 'file'), FileEntry('sub', 'dir')])
+        client.events = events
+        filters = [F.SchemeFilter(), stubs.ScriptFilter([verdict], events)]
+        if reject_dir:
+            filters.append(F.RegexFilter(rejected=r'/dir/$'))
+        env = stubs.build_ftp(client, filters=filters, glob=glob)
+        link_type = [None, LinkType.file, LinkType.directory][lt]
+        env.table.add(url)
+        rec = env.table.check_out(Status.todo)
+        rec.link_type = link_type
+        item = ItemSession(env.app, rec)
+    run(env.proc.process(item))
+    return url, events, item, env
+
+
+def _consulted_ftp(verdict, ui, lt, glob):
+    url, events, item, env = _ftp_events(verdict, ui, lt, glob, False)
+    helper_region = (lt == 0 and ui != 1) or (ui == 2 and glob)      # D13: helper listing of the parent directory / glob directory
+    if helper_region:
+        return True
+    allowed = {url, url + '/'}
+    saw_filter = False
+    for ev in events:
+        if ev[0] == 'filter':
+            saw_filter = True
+            if ev[1] != url:
+                return False
+        elif ev[0] in ('start', 'start_listing', 'download', 'download_listing'):
+            if not saw_filter or not verdict:
+                return False                 # a request without / after a negative verdict
+            if ev[1] not in allowed:
+                return False                 # a request for some other URL than the one the verdict was about
+    requests = [e for e in events if e[0] in ('start', 'start_listing')]
+    if verdict:
+        hit('fetched')
+        if len(requests) != 1:
+            return False
+    else:
+        hit('rejected')
+        if requests or env.table.rows[url].status != Status.skipped:
+            return False
+    return item.is_processed
+
+
+def _ftp_helper_listing(ui, glob):
+    """D13: the directory listing used to tell file from directory (or to expand a glob) is requested although the
+    scope rules reject the directory URL."""
+    url, events, item, env = _ftp_events(True, ui, 0, glob, True)
+    for ev in events:
+        if ev[0] in ('start', 'start_listing') and ev[1] == 'ftp://example.com/dir/':
+            return False
+    return True
+
+
+HARNESSES += [
+    H('consulted_ftp', '_consulted_ftp', 'verdict: bool, ui: int, lt: int, glob: bool',
+      pre=['0 <= ui <= 2 and 0 <= lt <= 2'], timeout={'quick': 120, 'thorough': 300},
+      samples=[(True, 0, 1, True), (False, 1, 2, True), (True, 1, 0, False)], need=['fetched', 'rejected'],
+      funcs=['wpull/processor/ftp.py:FTPProcessorSession.process', 'wpull/processor/ftp.py:FTPProcessorSession._fetch',
+             'wpull/processor/rule.py:FetchRule.check_generic_request'],
+      doc='FTPProcessorSession.process asks for a scope verdict on the item URL first; after a negative verdict no FTP session is '
+          'started and the item ends skipped; after a positive one exactly one transfer of that URL is started '
+          '(helper listings = known finding D13, excluded here and isolated in ftp_helper_listing)'),
+    H('ftp_helper_listing', '_ftp_helper_listing', 'ui: int, glob: bool', pre=['ui == 0 or ui == 2'],
+      timeout={'quick': 60, 'thorough': 60}, finding='D13', samples=[],
+      funcs=['wpull/processor/ftp.py:FTPProcessorSession._prepare_request_file_vs_dir', 'wpull/processor/ftp.py:FTPProcessorSession._fetch_parent_path',
+             'wpull/processor/ftp.py:FTPProcessorSession._to_directory_request'],
+      doc='no listing of a directory URL that the scope rules reject is requested (expected to fail: D13)'),
 ]
